@@ -1,6 +1,7 @@
 import WS.Lemmas.HttpLogic
 import WS.Lemmas.HdrLogic
 import WS.Gen.Tables
+import WS.Lemmas.CompressedWrite
 /-
   C15 — Both endpoints always agree on whether compression is in use.
 -/
@@ -52,5 +53,28 @@ theorem rsv1_iff_decompressor (isServer final : Bool) (h : Hdr) (hr : h.rsv1 = t
     right; right; left
     exact ⟨hr, rfl⟩
   · exact (HdrLogic.headerErrors_nil_iff isServer true final h).mpr hrest
+
+open WS.Content WS.CompressedWrite
+/-- toggle_safe (compression on): with permessage-deflate negotiated and write compression enabled a
+    data message goes out as exactly one RSV1 message whose payload is the deflate stream minus its
+    4-byte tail, however flate chunks its output and whatever the buffer size … -/
+theorem compressed_message_roundtrip (s : W) (hi : IdleZ s) (t : Nat) (ht : t = 1 ∨ t = 2)
+    (writes : List (Bytes × List Bytes)) (dnC : List Bytes) (full : Bytes)
+    (hsz : ∀ w ∈ writes, ∀ c ∈ w.2, c.length < 2 ^ 40) (hszC : ∀ c ∈ dnC, c.length < 2 ^ 40)
+    (htail : 4 ≤ full.length ∧ full.drop (full.length - 4) = sync4)
+    (hcons : pushed writes dnC = full.take (full.length - 4)) :
+    let s' := run s (zOps s t writes dnC full)
+    IdleZ s' ∧
+    wireMessages s' = wireMessages s ++ [⟨t, true, full.take (full.length - 4)⟩] ∧
+    wireControls s' = wireControls s := by
+  first | exact CompressedWrite.compressed_message_roundtrip .. | (apply CompressedWrite.compressed_message_roundtrip <;> assumption)
+
+/-- … and after EnableWriteCompression(false) the same connection sends the next message plain: every
+    message is either plain or RSV1 + deflate, both of which a negotiated peer accepts -/
+theorem toggle_safe_off (s : W) (hi : IdleZ s) (t : Nat) (ht : t = 1 ∨ t = 2) (data : Bytes) (hd : data.length < 2 ^ 40) :
+    let s1 := enableWriteCompression s false
+    (writeMessage s1 t data).1 = none ∧
+    wireMessages (writeMessage s1 t data).2 = wireMessages s ++ [⟨t, false, data⟩] := by
+  first | exact CompressedWrite.toggled_off_message_plain .. | (apply CompressedWrite.toggled_off_message_plain <;> assumption)
 
 end WS.Props.C15
